@@ -308,7 +308,9 @@ func c10ConstProgram(r interface{ IntN(int) int }, hashMaps bool) *gen.Program {
 		},
 		func() *ref.Node { return ref.Method(ref.Method(c, "top", I(2)), "append", n) },
 		func() *ref.Node { return ref.Method(ref.Method(ref.Method(c, "eval"), "top", I(1)), "append", n) },
-		func() *ref.Node { return ref.Method(ref.Index(ref.Method(c, "combineN", I(2), clo(id("w"), "w")), I(0)), "append", n) },
+		func() *ref.Node {
+			return ref.Method(ref.Index(ref.Method(c, "combineN", I(2), clo(id("w"), "w")), I(0)), "append", n)
+		},
 		func() *ref.Node { return ref.Method(c, "top", ref.Un("-", ref.Static("abs", n))) },
 	}
 	mapOps := []func() *ref.Node{
